@@ -187,6 +187,11 @@ def gen_c09(tier, rng):
         frac = rng.choice(["", "", ".5", ".000000000000001", ".123456789012345678", ".999999999999999", ".0"])
         with_off = rng.random() < 0.6
         off = rng.choice([0, 3600, -3600, 19800, -12600, 86340, -86340, 45296, -45296, 59, -59, 86399, -86399]) if with_off else None
+        if rng.random() < 0.04:
+            # the leap second at the end of a day / month / year: :60 rolls over into the next day
+            H, M, S = 23, 59, 60
+            if rng.random() < 0.5:
+                m, d = rng.choice([(12, 31), (6, 30), (2, 28), (1, 31)])
         vals = {"%Y": y, "%m": m, "%d": d, "%H": H, "%M": M, "%S": S}
         # boundary pushing: one field just outside / at its range
         mode = rng.random()
